@@ -62,7 +62,15 @@ func c04Eligible(c *Command, o SearchOptions) bool {
 	if o.NoCrossPlatform {
 		return false
 	}
-	return c04HasCrossTag(c) || isCrossPlatformTool(c.Command)
+	return c04HasCrossTag(c) || c04IsTool(c.Command)
+}
+
+// c04IsTool: "a recognised cross-platform tool" spelled independently of the engine's test —
+// the command's first blank-separated word is the tool's name. (The harness database uses git
+// only; look-alikes such as "git-lfs" or "find-module" are other programs.)
+func c04IsTool(cmd string) bool {
+	f := strings.Fields(strings.ToLower(cmd))
+	return len(f) > 0 && (f[0] == "git" || f[0] == "docker" || f[0] == "ssh" || f[0] == "find")
 }
 
 // c04Extra adds two entries to c04DB (set by the C04 harnesses only: other properties share
@@ -87,6 +95,8 @@ func c04DB(symbolicTag bool) *Database {
 	if c04Extra {
 		// a recognised cross-platform tool listed before a plain command with the same tag list
 		cmds = append(cmds, mk("git aa ii", "bb", []string{"freebsd"}, false), mk("aa jj", "bb", []string{"freebsd"}, false))
+		// programs whose names merely begin with a recognised tool's name
+		cmds = append(cmds, mk("find-module aa", "bb", []string{"windows"}, false), mk("ssh-copy-id aa", "bb", []string{"macos"}, false), mk("git.exe aa", "bb", []string{"windows"}, false))
 	}
 	if symbolicTag {
 		tag := verifString("tag", 5)
